@@ -7,12 +7,26 @@ import sys
 HERE = os.path.dirname(os.path.dirname(os.path.abspath(__file__)))
 
 CHECKS = {
+    "C20": dict(
+        category="exploration",
+        technique="stateful model-based testing: exhaustive enumeration of all job-command histories up to length 4/5 over a 20-operation alphabet, Hypothesis RuleBasedStateMachine with two lock-stepped actors, and a real-process family compared with /proc",
+        text="Histories of add_job / process exit / jobs / fg / bg / disown (valid, invalid, duplicate arguments) / clean-ups on the main thread and in alias-style worker threads (harness-owned interleaving) are run against xonsh/procs/jobs.py with stub processes that can never be signalled, and compared after every step with a reference model (live jobs + MRU order); a small family drives real `sleep` children and compares with /proc. One recorded defect (non-atomic disown) is tolerated only in its exact shape.",
+        note="Trusted: the reference model; 'reports an error' is a non-empty stderr message or non-zero exit; ambiguous numeric spellings accept both readings; a job registered from inside an alias thread need only stay isolated (documented in jobs.py).",
+        design="2/C20",
+    ),
     "C01": dict(
         category="exploration",
         technique="differential property-based testing against CPython's parser: stdlib corpus + CPython-validated token/whitespace mutations + Hypothesis-driven constructive AST generator rendered in random surface styles; canonical-tree and compile() comparison",
         text="Every text CPython accepts (corpus statement, validated mutation, generated program in a random surface style) is parsed by xonsh's context-free parser with LALR tables rebuilt from the working tree and compared with CPython's tree under a strict location-free canonical form, plus agreement of compile(); exec/eval/single modes. 40 recorded parser defects are attributed only through narrow syntactic predicates on the minimised program and avoided by the generators (counted). Absence is shown only for the explored texts.",
         note="Trusted: CPython's ast.parse/compile as the reference; the canonical form (self-tested: 6 equal pairs, 48 single-field perturbations); input convention of xonsh's own callers (exec/single text ends with newline, eval text does not). CR newlines, form feeds and coding declarations are out of domain.",
         design="2/C01",
+    ),
+    "C04": dict(
+        category="exploration",
+        technique="property-based round-trip testing: Hypothesis-generated command lines whose expected argv is known by construction, observed through a recording callable alias and through a real child process (netstring argv dump), decoy files against unintended globbing",
+        text="Command lines of 1-6 arguments in every delivery form (plain word, '..', \"..\", triple-quoted, r'', f'', @(expr) with str/list/tuple/generator/int/bytes, glued @(), macro `cmd! text`, @$(cmd), pipes) over values rich in blanks, quotes, backslashes, newlines, glob and shell metacharacters are executed through the real Execer; the recorded argv must equal the model (documented $NAME / leading-~ expansion modelled by construction) and alias argv must equal child-process argv. Two recorded defects are attributed through narrow predicates.",
+        note="Trusted: the generator's own escaper (every literal is checked with ast.literal_eval before use); the model of documented expansions; lines that are also Python assignment/tuple statements are C02/C03's domain and skipped (counted).",
+        design="2/C04",
     ),
     "C08": dict(
         category="exploration",
